@@ -363,6 +363,7 @@ func Main(flavour string) {
 			c.Deadline = time.Now().Add(time.Duration(s) * time.Second)
 		}
 		c.openCrumb(os.Getenv("VERIF_PARTIAL") + ".crumb")
+		go memoryWatch(flavour)
 		if pf := os.Getenv("VERIF_CPUPROFILE"); pf != "" {
 			f, _ := os.Create(pf)
 			pprof.StartCPUProfile(f)
@@ -499,6 +500,16 @@ func parentMain(d *Driver, flavour, tier string, seed int64) int {
 				merged.P.Counters["race_reports"]++
 				continue
 			}
+			if ee, ok := r.err.(*exec.ExitError); ok && ee.ExitCode() == 67 {
+				cs := map[string]string{"stderr": r.tail[:minInt(len(r.tail), 600)]}
+				if crumb != nil {
+					cs["case"] = string(crumb[:minInt(len(crumb), 4000)])
+				}
+				merged.Report(&Finding{Sig: "a call into the library allocates without end (worker stopped above its memory limit)", What: strings.TrimSpace(r.tail[:minInt(len(r.tail), 200)]), Case: cs, Count: 1})
+				merged.Flag("exhaustive", false)
+				merged.P.Counters["workers_crashed"]++
+				continue
+			}
 			if f := libraryCrash(r.tail); f != nil {
 				// an unrecovered panic or fatal error whose stack is inside the library (typically in a
 				// goroutine the library started, which no caller can recover): a violation, not a
@@ -531,12 +542,47 @@ func parentMain(d *Driver, flavour, tier string, seed int64) int {
 	}
 	if bad > 0 {
 		fmt.Fprintf(os.Stderr, "%d worker(s) failed: machinery error\n", bad)
+		if len(merged.P.Findings) == 0 {
+			return 2
+		}
+		// other workers did report violations (typically the same runaway that exhausted the failed
+		// workers' memory): they are reported; the run is neither exhaustive nor ever a pass
+		merged.Flag("exhaustive", false)
+		merged.P.Counters["workers_failed"] += int64(bad)
+		if rc := finish(d, merged, flavour, time.Since(start)); rc != 0 {
+			return rc
+		}
 		return 2
 	}
 	if d.Post != nil {
 		d.Post(merged)
 	}
 	return finish(d, merged, flavour, time.Since(start))
+}
+
+// memoryWatch ends a worker whose resident memory grows far beyond anything a case needs (the
+// largest worker of any check stays below 1 GiB on the unchanged tree): the sandbox has no memory
+// limit, and a loop that allocates without end would otherwise take the machine down. The parent
+// turns exit code 67 into a violation attributed to the case in the breadcrumb.
+func memoryWatch(flavour string) {
+	limit := int64(6 << 30)
+	if flavour == "race" {
+		limit = 24 << 30
+	}
+	page := int64(os.Getpagesize())
+	for {
+		time.Sleep(500 * time.Millisecond)
+		raw, err := os.ReadFile("/proc/self/statm")
+		if err != nil {
+			return
+		}
+		var size, rss int64
+		fmt.Sscanf(string(raw), "%d %d", &size, &rss)
+		if rss*page > limit {
+			fmt.Fprintf(os.Stderr, "verif: resident memory %d MiB exceeds the worker limit (runaway allocation)\n", rss*page>>20)
+			os.Exit(67)
+		}
+	}
 }
 
 // libraryCrash recognises a worker that died of a panic / fatal error raised inside the library
@@ -565,6 +611,11 @@ func libraryCrash(out string) *Finding {
 		}
 	}
 	lib := strings.Index(blk, "github.com/pierrec/lz4/v4")
+	if lib >= 0 && strings.Contains(first, "(runaway)") {
+		// raised by a harness sink/source whose call budget (far above what any case needs) was
+		// exhausted by a library goroutine: the library loops without advancing
+		return &Finding{Sig: "the library calls the sink or source without end (runaway loop in a library goroutine)", What: first, Case: map[string]string{"stderr": rest[:minInt(len(rest), 1500)]}, Count: 1}
+	}
 	if lib < 0 || strings.Contains(blk[:lib], "verif/harness/") {
 		return nil
 	}
